@@ -146,6 +146,28 @@ def run(chk):
                         break
             if ci % 400 == 0:
                 chk.sample(dict(config={k: c[k] for k in ('present', 'colname', 'load', 'lp', 'lv')}, expected=c['out']))
+    # ---- an explicit ppd= argument takes precedence over the header value (the Lagrangian positions are decoded with it)
+    from abacusnbody.data.bitpacked import unpack_pids
+    nppd = 0
+    with warnings.catch_warnings():
+        warnings.simplefilter('ignore')
+        for col in ('packedpid', 'pid'):
+            for hk in ('snapshot', 'lightcone'):
+                if ((col,), hk) not in files:
+                    continue
+                for ppd_arg in (2 * PPD, PPD // 2, float(PPD) * 3):
+                    for dt in (np.float32, np.float64):
+                        try:
+                            t = read_asdf(files[((col,), hk)], dtype=dt, verbose=False, load=('lagr_pos', 'pid'), ppd=ppd_arg)
+                        except Exception as e:  # noqa
+                            chk.violation(f'ppd-argument-raises-{col}', f'read_asdf({col} file, load=(lagr_pos, pid), ppd={ppd_arg!r}) header={hk}: {type(e).__name__}: {e}', dict(col=col, header=hk))
+                            continue
+                        nppd += 1
+                        want = unpack_pids(raw[col], box=BOX, ppd=int(ppd_arg), lagr_pos=True, float_dtype=dt)['lagr_pos']
+                        if not np.array_equal(np.asarray(t['lagr_pos']), want):
+                            chk.violation(f'ppd-argument-ignored-{col}', f'read_asdf({col} file, load=(lagr_pos, pid), ppd={ppd_arg!r}) header={hk} (header ppd {headers[hk]["ppd"]!r}): lagr_pos is not the decode with the ppd that was passed', dict(col=col, header=hk))
+    chk.part('ppd_argument', reads=nppd)
+    nrun += nppd
     # ---- files without particles (an empty light-cone slab): the table still has exactly the requested columns, with no rows
     empty = dict(rvint=np.zeros((0, 3), dtype=np.int32), pack9=np.zeros((0, 9), dtype=np.uint8), packedpid=np.zeros(0, dtype=np.uint64), pid=np.zeros(0, dtype=np.uint64))
     nempty = 0
